@@ -204,6 +204,8 @@ def rule_r2(rep, program: Program, et: ExcTypes):
         oracle = isinstance_oracle(et, f.module, {excname: KI})
         pruned = prune_by_oracle(cfg, oracle)
         appends = set(_call_nodes(cfg, lambda c: isinstance(c.func, ast.Attribute) and c.func.attr == "append" and norm(c.func.value) == "chain_outputs"))
+        # the collection may also be a mapping filled by item stores
+        appends |= {n for n in cfg.nodes if n.kind == "stmt" and isinstance(n.ast, ast.Assign) and any(isinstance(t, ast.Subscript) and norm(t.value) == "chain_outputs" for t in n.ast.targets)}
         exits = {cfg.exit_return, cfg.exit_raise, call}  # leaving the function or starting another chain
         start_succ = [s for s, lab in call.succ if lab != "exc"]
         skipped = []
